@@ -89,6 +89,19 @@ def run_cargo(manifest, cargo_args, crates, target_dir, out_dir, nonce, tag="", 
     env["MIRFACTS_TAG"] = tag
     if extra_env:
         env.update(extra_env)
+    # one extraction at a time per target directory (concurrent checks share the dependency cache)
+    import fcntl
+    os.makedirs(BUILD, exist_ok=True)
+    lockf = open(target_dir.rstrip("/") + ".lock", "w")
+    fcntl.flock(lockf, fcntl.LOCK_EX)
+    try:
+        return _run_cargo_locked(manifest, cargo_args, crates, target_dir, env, subcmd)
+    finally:
+        fcntl.flock(lockf, fcntl.LOCK_UN)
+        lockf.close()
+
+
+def _run_cargo_locked(manifest, cargo_args, crates, target_dir, env, subcmd):
     # force the wrapper to run for the analysed crates
     for c in crates:
         for d in glob.glob(os.path.join(target_dir, "debug", ".fingerprint", c.replace("_", "-") + "-*")) + \
